@@ -1045,6 +1045,16 @@ func (x *svcEnv) step(ws []string) (out string) {
 		}
 	case "scanrace":
 		return x.scanRace(ws[1:])
+	case "scancancel": // scancancel <prefix>: a streaming scan whose client goes away after the first pair (the server's Send fails): the scan's
+		// internal transaction must still end - the next writer is not kept waiting
+		ctx, cancel := context.WithCancel(context.Background())
+		st, err := x.cl.Scan(ctx, &pb.ScanRequest{Prefix: bx(ws[1])})
+		if err == nil {
+			_, err = st.Recv()
+		}
+		cancel()
+		time.Sleep(150 * time.Millisecond)
+		return "scancancel ok"
 	case "readonly":
 		x.a.SetReadOnly(ws[1] == "on")
 		x.b.SetReadOnly(ws[1] == "on")
@@ -1533,6 +1543,9 @@ func (s *svcGen) raceCase() {
 	s.emit("rpc", "Get", hx([]byte("zr0001")))
 	s.emit(append([]string{"scanrace", hx([]byte("zr"))}, mk(0x6e)...)...)
 	s.emit("rpc", "Get", hx([]byte("zr0001")))
+	s.emit("scancancel", hx([]byte("zr")))
+	s.emit("rpc", "BatchWrite", "1", "p", hx([]byte("zr-after-cancel")), "01") // the write lock is free
+	s.emit("rpc", "Get", hx([]byte("zr-after-cancel")))
 	s.emit("rpc", "Get", hx([]byte(fmt.Sprintf("zr%04d", n-1))))
 	s.emit("dump")
 }
